@@ -355,6 +355,38 @@ func c20Check(c *C20Case) (ds []ev.Discrepancy, stats map[string]int) {
 			}
 		}
 	}
+	// tags without a value: just behind the colon the cursor is on the (empty) value, whose uses are counted too
+	for _, sp := range r.Spans {
+		if sp.Kind != "tagname" || j.Entries[sp.Entry].Tx == nil {
+			continue
+		}
+		hasValue := false
+		for _, s2 := range r.Spans {
+			if s2.Kind == "tagvalue" && s2.Line == sp.Line && s2.S >= sp.E+1 && s2.S <= sp.E+3 {
+				hasValue = true
+			}
+		}
+		if hasValue {
+			continue
+		}
+		pos := refclient.Pos{Line: sp.Line, Char: sp.E + 1}
+		if buf.ValidatePos(pos) != nil {
+			continue
+		}
+		var hv *protocol.Hover
+		if perr := lspx.Guard(func() { hv, _ = h.S.Hover(ctx, &protocol.HoverParams{TextDocumentPositionParams: tdpp(uri, pos)}) }); perr != nil || hv == nil {
+			continue
+		}
+		md := hv.Contents.Value
+		if !strings.Contains(md, "**Value:**") || !strings.Contains(md, sp.Text) {
+			continue // resolved to something else at this boundary
+		}
+		stats["hovers"]++
+		stats["empty_tag_values"]++
+		if n, ok := hoverCount(md, "Usage"); ok && n != truth.tagValues[sp.Text+"\x00"] {
+			add(sp, "c20.tagvalue.count", "hover just behind the colon: usage count %d for the empty value of %s, exact count is %d", n, sp.Text, truth.tagValues[sp.Text+"\x00"])
+		}
+	}
 	return ds, stats
 }
 
